@@ -57,6 +57,7 @@ from ..vloop import CURRENT_NODE
 LEVEL = "fault_enumeration"
 
 HARNESS_TASK = "c11-harness:"
+PROBE_NAME = "c11 probe"
 OUTSIDE = ("9.9.9.9", 99)
 UNREACHABLE = ("9.9.9.1", 9)
 VARIANTS = ("quiet", "race", "lost")
@@ -177,6 +178,11 @@ class Rec:
         return self.log[self.marked:] if self.marked is not None else []
 
 
+def _handler_name(h) -> str:  # noqa: ANN001
+    n = getattr(h, "__name__", "handler")
+    return "handler" if n == "wrapper" else n
+
+
 def _wrap_handler(rec: Rec, fn, name: str):  # noqa: ANN001, ANN202
     def recorded(*args):  # noqa: ANN002, ANN202
         rec.on_handler(name)
@@ -189,11 +195,11 @@ def instrument(ctx: "Ctx") -> None:
     ctx.nut.taps[id(ov)].rec = rec
     for i, h in enumerate(ov.decode_map):
         if h is not None:
-            ov.decode_map[i] = _wrap_handler(rec, h, f"{getattr(h, '__name__', 'handler')}[{i}]")
+            ov.decode_map[i] = _wrap_handler(rec, h, f"{_handler_name(h)}[{i}]")
     private = getattr(ov, "decode_map_private", None)
     if private is not None:
         for i, h in list(private.items()):
-            private[i] = _wrap_handler(rec, h, f"cell:{getattr(h, '__name__', 'handler')}[{i}]")
+            private[i] = _wrap_handler(rec, h, f"cell:{_handler_name(h)}[{i}]")
     rc = getattr(ov, "request_cache", None)
     if rc is not None:
         orig_timeout = rc._on_timeout  # noqa: SLF001
@@ -284,6 +290,10 @@ class Scenario:
 
     def stimulate(self, ctx: Ctx) -> None:
         """Fresh, valid requests of the peers to the (unloaded) node."""
+
+    def variants(self) -> tuple:
+        """`lost` differs from `quiet` only if unload() itself sends something (tunnel overlays: destroy messages)."""
+        return VARIANTS if issubclass(getattr(self, "cls", Community), TunnelCommunity) else VARIANTS[:2]
 
 
 class TrivialCommunity(Community):
@@ -539,8 +549,9 @@ class WalletScenario(Scenario):
     """A attests an attribute of B; C verifies it at B (chunks, challenges, responses); a verification of an unknown
     hash is left outstanding."""
 
-    def __init__(self, nut: str) -> None:
+    def __init__(self, nut: str, quick: bool = True) -> None:
         self.nut = nut
+        self.quick = quick
         self.name = f"AttestationCommunity/{nut}"
         self.label = "AttestationCommunity"
 
@@ -645,7 +656,7 @@ def all_scenarios() -> list[Scenario]:
         TunnelOnTunnelEndpoint("X"), TunnelOnTunnelEndpoint("O", quick=False), TunnelOnTunnelEndpoint("R", quick=False),
         HiddenScenario("O"), HiddenScenario("X"), HiddenScenario("R", quick=False),
         IdentityScenario("A"), IdentityScenario("B"),
-        WalletScenario("A"), WalletScenario("B"), WalletScenario("C"),
+        WalletScenario("A", quick=False), WalletScenario("B"), WalletScenario("C"),
     ]
     return s
 
@@ -727,7 +738,8 @@ def pending_of(ctx: Ctx) -> tuple[list[str], list[str]]:
     loop = ctx.w.loop
     nut = ctx.nut
     tasks = sorted(_norm_task_name(t.get_name()) for t in asyncio.all_tasks(loop)
-                   if not t.done() and _task_node(t) is nut and not t.get_name().startswith(HARNESS_TASK))
+                   if not t.done() and _task_node(t) is nut and not t.get_name().startswith(HARNESS_TASK)
+                   and PROBE_NAME not in t.get_name())
     timers = []
     for h in loop._scheduled:  # noqa: SLF001
         if h._cancelled or h._context.get(CURRENT_NODE) is not nut:  # noqa: SLF001
@@ -911,15 +923,12 @@ def run_one(scn_name: str, k: int, variant: str, seed: int, thorough: bool):  # 
             still_open = [t.local_addr for t in loop.transports if t.owner is nut and not t.closed]
             if still_open:
                 add(f"socket-open:{label}", f"{when}: sockets opened by the node are still open: {still_open}")
-            own_tasks = [str(n) for n, t in list(ov._pending_tasks.items()) if not t.done()]  # noqa: SLF001
+            own_tasks = [str(n) for n, t in list(ov._pending_tasks.items())  # noqa: SLF001
+                         if not t.done() and PROBE_NAME not in str(n)]
             if own_tasks:
                 add(f"task-alive:{label}:registered", f"{when}: the overlay's TaskManager still tracks active tasks "
                                                       f"{own_tasks[:5]}")
         check_resources("when unload() returned")
-
-        for api, what in probe_new_tasks(ctx):
-            add(f"accepts-task:{label}:{api}", what)
-        loop.settle()
 
         # ---- late traffic ---------------------------------------------------------------------------------------
         n_late = len(w.inflight)
@@ -976,10 +985,18 @@ def run_one(scn_name: str, k: int, variant: str, seed: int, thorough: bool):  # 
         if outside:
             add(f"reacts:{label}:via=exit-socket", f"after unload() returned the node still sent {len(outside)} "
                 f"datagrams to the Internet through its exit sockets: {outside[:3]}")
-        if rec.probe_runs:
-            for api in sorted(set(rec.probe_runs)):
-                add(f"accepts-task:{label}:{api}", f"work handed to the overlay after unload() was executed: {api}")
         check_resources("2 h after unload()")
+
+        # ---- (iii, second half) new work handed to the unloaded overlay schedules nothing ------------------------
+        for api, what in probe_new_tasks(ctx):
+            add(f"accepts-task:{label}:{'request_cache' if api.startswith('request_cache') else 'taskmanager'}",
+                f"{api}: {what}")
+        w.run_for(35.0)
+        for comp in ("request_cache", "taskmanager"):
+            apis = sorted({a for a in rec.probe_runs if a.startswith("request_cache") == (comp == "request_cache")})
+            if apis:
+                add(f"accepts-task:{label}:{comp}", f"work handed to the overlay after unload() returned was executed: "
+                                                    f"{apis}")
         obs = (scn.name, pre, ref_events[k - 1][0] if k else "start", sent_during > 0, delivered_during > 0, n_late > 0)
         return viol, obs, len(done)
     finally:
@@ -1147,7 +1164,15 @@ class TMRun:
             self.tm.replace_task("c", self.body, probe).add_done_callback(_swallow)
         except RuntimeError:
             pass
-        loop.advance_to(loop.time() + 7200.0)
+        end = loop.time() + 7200.0
+        while True:                 # 2 h of timers, but no need to watch a leaked interval task 7200 times
+            loop.settle()
+            if any(e[0] in ("start", "run", "end") for e in self.log[mark:]):
+                break
+            nt = loop.next_timer()
+            if nt is None or nt > end:
+                break
+            seams.CLOCK.set(nt)
         late = [e for e in self.log[mark:] if e[0] in ("start", "run", "end")]
         late_probe = [e for e in late if e[1] in (probe, probe2)]
         late_old = [e for e in late if e[1] not in (probe, probe2)]
@@ -1268,6 +1293,7 @@ def run(ctx: core.Ctx) -> core.Report:
     violations: list[core.Violation] = []
     per = []
     items = []
+    points = 0
     for s in scns:
         evs, lib = reference(s, _SEED)
         evs2, _ = reference_run(s, _SEED)           # determinism self-check of the scripted run
@@ -1279,13 +1305,15 @@ def run(ctx: core.Ctx) -> core.Report:
             kinds[e[0]] = kinds.get(e[0], 0) + 1
         per.append({"scenario": s.name, "events": len(evs), "kinds": kinds, "valid_msg_ids_captured": len(lib)})
         for k in range(len(evs) + 1):
-            for v in VARIANTS:
+            for v in s.variants():
                 items.append((s.name, k, v))
+        points += len(evs) + 1
     res = core.pmap(explore_points, items, ctx.jobs, chunk=3)
     seen_keys: dict = {}
     obs_set = set()
     execs = 0
-    for scn_name, k, variant, v, obs in sorted(res, key=lambda r: (r[0], r[1], r[2])):
+    rank = {v: i for i, v in enumerate(VARIANTS)}
+    for scn_name, k, variant, v, obs in sorted(res, key=lambda r: (r[0], r[1], rank[r[2]])):
         execs += 1
         if obs is not None:
             obs_set.add(repr(obs))
@@ -1329,8 +1357,8 @@ def run(ctx: core.Ctx) -> core.Report:
         "samples": per[:3] + per[-2:],
         "exhaustive": True,
         "scenarios": per,
-        "unload_points": len(items) // len(VARIANTS),
-        "variants": list(VARIANTS),
+        "unload_points": points,
+        "variants": {"tunnel overlays": list(VARIANTS), "other overlays": list(VARIANTS[:2])},
         "unload_executions": execs,
         "distinct_unload_observations": len(obs_set),
         "taskmanager_depth": _TM_DEPTH,
